@@ -102,6 +102,26 @@ def check(case):
                         return "Jaccard index is not symmetric"
                     if sa == sb and res[1] != 1.0:
                         return "Jaccard index of identical operands is not 1.0"
+            # derived filters (results of set operations) are reachable states too
+            if compatible and kind != "bloom-ondisk":
+                derived = [x for x in (a.intersection(b), a.union(b), cls(est_elements=case["est"], false_positive_rate=case["fpr"], hash_function=fn)) if x is not None]
+                pool = [a] + derived
+                for x in pool:
+                    for y in pool:
+                        got = core.call(x.jaccard_index, y)
+                        if got[0] == "err":
+                            return f"jaccard_index on a derived filter raised {got[1]}"
+                        if kind == "cbf":
+                            lx, ly = list(x.bloom), list(y.bloom)
+                            num = sum(1 for p, q in zip(lx, ly) if p > 0 and q > 0)
+                            den = sum(1 for p, q in zip(lx, ly) if p > 0 or q > 0)
+                        else:
+                            bx, by = bytes(x.bloom), bytes(y.bloom)
+                            num = popcount(p & q for p, q in zip(bx, by))
+                            den = popcount(p | q for p, q in zip(bx, by))
+                        want = 1.0 if den == 0 else num / den
+                        if got[1] != want:
+                            return f"Jaccard index of derived filters (element counts {x.elements_added}, {y.elements_added}) is {got[1]!r}, positions give {num}/{den}"
             for name in ("union", "intersection", "jaccard_index"):
                 if core.call(getattr(a, name), "foreign") != ("err", "!TypeError"):
                     return f"{name} with a foreign type did not raise TypeError"
